@@ -7,6 +7,7 @@ import (
 	"fmt"
 	"go/types"
 	"math/big"
+	"math/rand"
 	"os"
 	"sort"
 	"strings"
@@ -17,12 +18,12 @@ import (
 )
 
 type decision struct {
-	kind  string
-	n     int     // number of alternatives (branch: 2; sched/select: n; value: unknown=-1)
-	cur   int     // chosen alternative index (branch/sched)
-	vals  []int64 // value decisions: values tried so far (last = current)
-	forced  bool  // received from another worker: never backtracked
-	donated bool  // remaining alternatives were handed to other workers
+	kind    string
+	n       int     // number of alternatives (branch: 2; sched/select: n; value: unknown=-1)
+	cur     int     // chosen alternative index (branch/sched)
+	vals    []int64 // value decisions: values tried so far (last = current)
+	forced  bool    // received from another worker: never backtracked
+	donated bool    // remaining alternatives were handed to other workers
 }
 
 type pathResult struct {
@@ -33,12 +34,12 @@ type pathResult struct {
 }
 
 type nondetRec struct {
-	Name string
-	Kind string // int, bool, str, bytes, aux, sched...
-	Tag  string
-	T    *Term
-	Lo   int64
-	Hi   int64
+	Name  string
+	Kind  string // int, bool, str, bytes, aux, sched...
+	Tag   string
+	T     *Term
+	Lo    int64
+	Hi    int64
 	Const string // concrete inputs (kept so the native vector stays aligned)
 	Doc   *Doc   // arbitrary document (rendered from the model for replay)
 }
@@ -62,19 +63,20 @@ type Stats struct {
 }
 
 type EntryOpts struct {
-	Name     string
-	Property string
-	Tier     string
-	Bounds   string
-	Cover    []string
-	Forbid   map[string]bool // panic, deadlock, race (default all)
-	Budget   int64
-	Preempt  int
-	Race     bool
-	MaxGors  int
-	Params   map[string]int64 // tier-dependent harness parameters (vParam)
-	NoNumStr bool             // compare decimal strings digit by digit (no numeric shortcut)
-	Prepass  bool             // lower-preemption pre-pass of the same entry
+	Name          string
+	Property      string
+	Tier          string
+	Bounds        string
+	Cover         []string
+	Forbid        map[string]bool // panic, deadlock, race (default all)
+	Budget        int64
+	Preempt       int
+	Race          bool
+	MaxGors       int
+	Params        map[string]int64 // tier-dependent harness parameters (vParam)
+	NoNumStr      bool             // compare decimal strings digit by digit (no numeric shortcut)
+	Prepass       bool             // lower-preemption pre-pass of the same entry
+	NoConformance bool             // entry depends on model-only nondeterminism the native build cannot mirror
 }
 
 type Violation struct {
@@ -116,59 +118,62 @@ type Engine struct {
 	solver *Solver
 
 	// exploration state
-	trail     []*decision
-	replayLen int
-	di        int
-	live      bool
-	stop      bool
+	trail      []*decision
+	replayLen  int
+	di         int
+	live       bool
+	stop       bool
 	foreignLen int
 	assertFrom int
-	firstRun  bool
-	pool      *pool
-	entryIdx  int
+	firstRun   bool
+	pool       *pool
+	entryIdx   int
 
 	// per-path state
-	globals   map[*ssa.Global]*Value
-	nondets   []nondetRec
-	auxCount  int
-	gors      []*Gor
-	cur       *Gor
-	multi     bool
-	preempts  int
-	steps     int64
-	budget    int64
-	depth     int
-	opaqueSeq int
-	cells     map[any]*cellMeta
-	mutexes   map[*Value]*mutexState
-	rws       map[*Value]*rwState
-	wgs       map[*Value]*wgState
-	atomics   map[*Value]*atomicState
-	raceOn    bool
-	maxGors   int
-	observes  []string
-	clock     int64
-	fnIDs     map[*ssa.Function]uint64
-	symNames  map[string]Value // type key -> symbolic reflect name
-	docSeq    int
-	extErrs   map[string]Value
-	timeLocs  map[string]*Value
-	pathCover map[string]bool
-	onceDone  map[*Value]bool
-	syncMaps  map[*Value]*Map
-	schedLog  []schedEv
-	pointLog  []string
-	pointTrace bool
-	siteCache map[string]bool
-	pkgDir    string
-	decided   map[*Term]bool
+	globals     map[*ssa.Global]*Value
+	nondets     []nondetRec
+	auxCount    int
+	gors        []*Gor
+	cur         *Gor
+	multi       bool
+	preempts    int
+	steps       int64
+	budget      int64
+	depth       int
+	opaqueSeq   int
+	cells       map[any]*cellMeta
+	mutexes     map[*Value]*mutexState
+	rws         map[*Value]*rwState
+	wgs         map[*Value]*wgState
+	atomics     map[*Value]*atomicState
+	raceOn      bool
+	maxGors     int
+	observes    []string
+	clock       int64
+	fnIDs       map[*ssa.Function]uint64
+	symNames    map[string]Value // type key -> symbolic reflect name
+	docSeq      int
+	extErrs     map[string]Value
+	timeLocs    map[string]*Value
+	pathCover   map[string]bool
+	onceDone    map[*Value]bool
+	syncMaps    map[*Value]*Map
+	schedLog    []schedEv
+	concrete    bool // conformance mode: random concrete inputs, no solver
+	rng         *rand.Rand
+	ctrace      []string // assertion / observation trace of a conformance run
+	pointLog    []string
+	pointTrace  bool
+	siteCache   map[string]bool
+	pkgDir      string
+	decided     map[*Term]bool
 	concretized map[*Term]*big.Int
-	usedVars  map[string]bool
-	noNumStr  bool
-	ptrIDs    map[*Value]uint64
-	initSet   map[*ssa.Package]bool
-	rtypePtr  types.Type
-	stepCtr   int64
+	usedVars    map[string]bool
+	noNumStr    bool
+	ptrIDs      map[*Value]uint64
+	initSet     map[*ssa.Package]bool
+	rtypePtr    types.Type
+	stepCtr     int64
 
 	// path end plumbing
 	pathEnd  chan struct{}
@@ -178,17 +183,17 @@ type Engine struct {
 	hostWG   sync.WaitGroup
 
 	// results
-	stats       Stats
-	covers      map[string]int
-	violations  []*Violation
-	knownHits   []*Violation
-	samples     []map[string]any
-	stubsHit    map[string]int
-	encodedFns  map[string]int
+	stats        Stats
+	covers       map[string]int
+	violations   []*Violation
+	knownHits    []*Violation
+	samples      []map[string]any
+	stubsHit     map[string]int
+	encodedFns   map[string]int
 	inconclusive []string
-	start       time.Time
-	deadline    time.Time
-	verbose     bool
+	start        time.Time
+	deadline     time.Time
+	verbose      bool
 }
 
 // ---- decisions
@@ -238,6 +243,9 @@ func (e *Engine) snapshotPrefix(n int) []*decision {
 func (e *Engine) decideN(kind string, n int) int {
 	if n <= 1 {
 		return 0
+	}
+	if e.concrete {
+		return e.rng.Intn(n)
 	}
 	switch e.mode() {
 	case modeOwn, modeForeign:
@@ -561,6 +569,12 @@ func (e *Engine) concretizeIndex(v Value) int64 { return e.concretizeInt(v, "ind
 // ---- assumptions, assertions
 
 func (e *Engine) assumeTerm(t *Term) {
+	if e.concrete {
+		if t.Const && !t.B {
+			e.infeasiblePath("assume false")
+		}
+		return
+	}
 	e.noteVars(t)
 	if !e.live {
 		return
@@ -575,6 +589,12 @@ func (e *Engine) assumeTerm(t *Term) {
 }
 
 func (e *Engine) assume(c Value) {
+	if e.concrete {
+		if !e.branch(c) {
+			e.infeasiblePath("assume false")
+		}
+		return
+	}
 	switch c := c.(type) {
 	case bool:
 		if !c {
@@ -601,6 +621,19 @@ func (e *Engine) infeasiblePath(why string) {
 // assertCond checks cond on the current path. knownID/region implement
 // known findings (see DESIGN §2.12).
 func (e *Engine) assertCond(cond Value, label string, knownID string, region Value) {
+	if e.concrete {
+		ok := e.branch(cond)
+		if ok {
+			e.ctrace = append(e.ctrace, "A:"+label+":ok")
+		} else {
+			e.ctrace = append(e.ctrace, "A:"+label+":FAIL")
+			if _, known := e.known[knownID]; !(known && e.branch(region)) {
+				e.endPath(pathResult{kind: "violation", label: label})
+				panic(pathAbort{"violation"})
+			}
+		}
+		return
+	}
 	if ct, ok := cond.(*Term); ok {
 		e.noteVars(ct)
 	}
@@ -763,6 +796,9 @@ func (e *Engine) trailVector() []int64 {
 // ---- nondet values
 
 func (e *Engine) newInput(kind, tag string, sort Sort) *Term {
+	if e.concrete {
+		return e.concreteInput(kind, tag, sort)
+	}
 	idx := len(e.nondets)
 	name := fmt.Sprintf("in%d_%s", idx, sortTag(sort))
 	t := e.ts.Var(name, sort)
@@ -1168,5 +1204,84 @@ func sortedKeys[V any](m map[string]V) []string {
 		out = append(out, k)
 	}
 	sort.Strings(out)
+	return out
+}
+
+// ---- conformance mode: random concrete inputs
+
+func (e *Engine) concreteInput(kind, tag string, sort Sort) *Term {
+	var t *Term
+	var val string
+	switch sort.K {
+	case SBool:
+		b := e.rng.Intn(2) == 1
+		t, val = e.ts.Bool(b), fmt.Sprint(b)
+	case SInt:
+		t, val = e.ts.Int(0), "0"
+	case SBV:
+		// name bytes [a-z0-9]
+		const alpha = "abcdefghijklmnopqrstuvwxyz0123456789"
+		c := alpha[e.rng.Intn(len(alpha))]
+		t, val = e.ts.BV(uint64(c), sort.W), fmt.Sprint(int(c))
+	case SStr:
+		pool := []string{"", "a", "b", "k1", "a/b", "x y", "eventbus.evA"}
+		sv := pool[e.rng.Intn(len(pool))]
+		t, val = e.ts.StrC(sv), fmt.Sprintf("%q", sv)
+	}
+	e.nondets = append(e.nondets, nondetRec{Name: fmt.Sprintf("in%d_c", len(e.nondets)), Kind: kind, Tag: tag, Const: val})
+	return t
+}
+
+func (e *Engine) concreteInt(kind, tag string, lo, hi int64) Value {
+	var v int64
+	switch r := e.rng.Intn(10); {
+	case lo >= hi:
+		v = lo
+	case r < 3:
+		v = lo
+	case r < 6:
+		v = hi
+	default:
+		span := hi - lo
+		if span > 1<<40 {
+			span = 1 << 40
+		}
+		v = lo + e.rng.Int63n(span+1)
+	}
+	e.nondets = append(e.nondets, nondetRec{Name: fmt.Sprintf("in%d_c", len(e.nondets)), Kind: kind, Tag: tag, Const: fmt.Sprint(v)})
+	return v
+}
+
+// RunConformance executes k random concrete runs and returns them.
+type ConfRun struct {
+	Inputs []InputVal
+	Sched  []schedEv
+	Trace  []string
+	Multi  bool
+	Result string
+}
+
+func (e *Engine) RunConformance(k int, seed int64) []ConfRun {
+	var out []ConfRun
+	e.concrete = true
+	for i, tries := 0, 0; i < k && tries < 40*k; tries++ {
+		e.rng = rand.New(rand.NewSource(seed*7919 + int64(tries)))
+		e.trail, e.replayLen, e.foreignLen, e.firstRun = nil, 0, 0, false
+		e.ctrace = nil
+		res := e.runPath()
+		if res.kind == "infeasible" {
+			continue
+		}
+		r := ConfRun{Trace: append([]string(nil), e.ctrace...), Sched: append([]schedEv(nil), e.schedLog...), Multi: e.multi, Result: res.kind}
+		if res.kind != "ok" {
+			r.Result = res.kind + ": " + res.msg + res.label
+		}
+		for _, n := range e.nondets {
+			r.Inputs = append(r.Inputs, InputVal{Name: n.Name, Kind: n.Kind, Tag: n.Tag, Val: n.Const})
+		}
+		out = append(out, r)
+		i++
+	}
+	e.concrete = false
 	return out
 }
